@@ -212,7 +212,15 @@ def generate(seed, tier, ncases=None):
         rng = lib.rng_for(seed, ID, i)
         r = rng.random()
         if r < 0.5:
-            yield gen_split(rng)
+            c = gen_split(rng)
+            if c["op"] == "class_split" and rng.random() < 0.6:
+                # history on ONE ITS object: split / to_smiles, then prune, then split again; the last split
+                # must describe the object's CURRENT graph
+                c["op"] = "class_seq"
+                c["radius"] = rng.choice([0, 0, 1, 2])
+                c["ih"] = rng.random() < 0.5
+                c["pre"] = rng.choice(["split", "smiles", "both"])
+            yield c
         elif r < 0.75:
             yield gen_resup(rng)
         else:
@@ -249,6 +257,22 @@ def run_impl(c):
             obj = ITS(its)
             g, h = obj.split()
             return ("ok", g, h, True, obj.graph)
+        if c["op"] == "class_seq":
+            its = gens.copy_exact(c["its"])
+            obj = ITS(its)
+            if c["pre"] in ("split", "both"):
+                obj.split()
+            if c["pre"] in ("smiles", "both"):
+                try:
+                    obj.to_smiles()
+                except Exception:   # noqa  (placeholder / wildcard atoms cannot be written)
+                    pass
+            try:
+                obj.prune(radius=c["radius"], insert_hydrogens=c["ih"])
+            except Exception:       # noqa  (scalar labels make get_rc raise; the object keeps its graph)
+                pass
+            g, h = obj.split()
+            return ("ok", g, h, True, obj.graph)
         if c["op"] == "resup":
             its = gens.copy_exact(c["its"])
             g, h = split_its(its)
@@ -283,6 +307,11 @@ def coq_case(c, out):
                  "&& graph_equivb (snd (ITS_split i)) $h | None => false end")
         spec = "split_okb $its2 ($g, $h)"
         diag = ["ITS_init $its"]
+    elif op == "class_seq":
+        defs["g"], defs["h"], defs["its2"] = ct.graph(out[1]), ct.graph(out[2]), ct.graph(out[4])
+        agree = "graph_equivb (fst (split_its $its2)) $g && graph_equivb (snd (split_its $its2)) $h"
+        spec = "split_okb $its2 ($g, $h)"
+        diag = ["split_its $its2"]
     elif op == "resup":
         defs["out"] = ct.graph(out[1])
         agree = "graph_equivb (get_its (fst (split_its $its)) (snd (split_its $its))) $out"
@@ -301,7 +330,7 @@ def describe(c):
     for k in ("its", "G", "H"):
         if k in c:
             d[k] = ct.graph_py(c[k])
-    for k in ("smiles", "pattern"):
+    for k in ("smiles", "pattern", "radius", "ih", "pre"):
         if k in c:
             d[k] = c[k]
     return d
@@ -312,7 +341,7 @@ def from_json(d):
     for k in ("its", "G", "H"):
         if k in d:
             c[k] = ct.graph_from_py(d[k])
-    for k in ("smiles", "pattern"):
+    for k in ("smiles", "pattern", "radius", "ih", "pre"):
         if k in d:
             c[k] = d[k]
     return c
